@@ -15,6 +15,7 @@ type DLog struct{ Idx, Addr, Body uint64 }
 type DTx struct {
 	Idx, Hash, Status uint64
 	Logs              []DLog
+	Traces            []uint64 // body ids of the trace actions, in order
 }
 type DBlock struct {
 	Num, Hash, Time uint64
@@ -27,6 +28,15 @@ func dumpLog(l *eth.Log) DLog {
 		body = BadID
 	}
 	return DLog{Idx: uint64(l.Idx), Addr: IDAddr(l.Address), Body: body}
+}
+
+// a trace action carries body in from, body+1 in to, "call", and its position as index
+func dumpTrace(ta *eth.TraceAction, pos int) uint64 {
+	body := IDAddr(ta.From)
+	if IDAddr(ta.To) != body+1 || ta.CallType != "call" || ta.Idx != uint64(pos) || ta.Value.Uint64() != body {
+		return BadID
+	}
+	return body
 }
 
 // DumpBlock reads one block; with lock it holds the block's own mutex while
@@ -49,6 +59,9 @@ func DumpBlockRaw(b *eth.Block) DBlock {
 		dt := DTx{Idx: uint64(t.Idx), Hash: ID32(t.PrecompHash), Status: uint64(t.Status)}
 		for j := range t.Logs {
 			dt.Logs = append(dt.Logs, dumpLog(&t.Logs[j]))
+		}
+		for j := range t.TraceActions {
+			dt.Traces = append(dt.Traces, dumpTrace(&t.TraceActions[j], j))
 		}
 		d.Txs = append(d.Txs, dt)
 	}
@@ -75,8 +88,16 @@ func CoqLogs(ls []DLog) string {
 	return "[" + strings.Join(xs, "; ") + "]"
 }
 
+func CoqNs(xs []uint64) string {
+	ss := make([]string, len(xs))
+	for i, x := range xs {
+		ss[i] = fmt.Sprint(x)
+	}
+	return "[" + strings.Join(ss, "; ") + "]"
+}
+
 func (t DTx) Coq() string {
-	return fmt.Sprintf("mkTx %d %d %d %s", t.Idx, t.Hash, t.Status, CoqLogs(t.Logs))
+	return fmt.Sprintf("mkTx %d %d %d %s %s", t.Idx, t.Hash, t.Status, CoqLogs(t.Logs), CoqNs(t.Traces))
 }
 
 func (b DBlock) Coq() string {
@@ -105,7 +126,7 @@ func (c Chain) Coq() string {
 			for k, l := range t.Logs {
 				ls[k] = DLog(l)
 			}
-			txs[j] = fmt.Sprintf("mkCtx %d %d %s", t.Idx, t.Hash, CoqLogs(ls))
+			txs[j] = fmt.Sprintf("mkCtx %d %d %s %s", t.Idx, t.Hash, CoqLogs(ls), CoqNs(t.Traces))
 		}
 		bs[i] = fmt.Sprintf("mkCB %d %d [%s]", b.Hash, b.Time, strings.Join(txs, "; "))
 	}
@@ -117,7 +138,10 @@ func (c Chain) Coq() string {
 
 // View keeps, per block, header fields and per transaction the logs the
 // caller asked for, sorted by index; transactions without such logs dropped.
-func View(bs []DBlock, x string, addrs []uint64) []DBlock {
+func View(bs []DBlock, x string, addrs []uint64) []DBlock { return ViewT(bs, x, false, addrs) }
+
+// ViewT: as View; plans with traces also compare every transaction's trace actions.
+func ViewT(bs []DBlock, x string, traces bool, addrs []uint64) []DBlock {
 	want := func(l DLog) bool {
 		switch x {
 		case "r":
@@ -144,7 +168,10 @@ func View(bs []DBlock, x string, addrs []uint64) []DBlock {
 					vt.Logs = append(vt.Logs, l)
 				}
 			}
-			if len(vt.Logs) == 0 {
+			if traces {
+				vt.Traces = append([]uint64(nil), t.Traces...)
+			}
+			if len(vt.Logs) == 0 && len(vt.Traces) == 0 {
 				continue
 			}
 			sort.SliceStable(vt.Logs, func(a, b int) bool { return vt.Logs[a].Idx < vt.Logs[b].Idx })
@@ -157,6 +184,10 @@ func View(bs []DBlock, x string, addrs []uint64) []DBlock {
 
 // Truth builds the caller's view directly from the chain.
 func Truth(c Chain, base string, x string, addrs []uint64, start, limit uint64) []DBlock {
+	return TruthT(c, base, x, false, addrs, start, limit)
+}
+
+func TruthT(c Chain, base string, x string, traces bool, addrs []uint64, start, limit uint64) []DBlock {
 	var bs []DBlock
 	for n := start; n < start+limit; n++ {
 		b := DBlock{Num: n}
@@ -171,13 +202,20 @@ func Truth(c Chain, base string, x string, addrs []uint64, start, limit uint64) 
 						b.Hash = c[n].Hash
 					}
 				}
-				if x == "r" {
+				if x == "r" || (traces && len(t.Traces) > 0) {
+					b.Hash = c[n].Hash
+				}
+			}
+		}
+		if base == "" && x == "" && traces {
+			for _, t := range c[n].Txs {
+				if len(t.Traces) > 0 {
 					b.Hash = c[n].Hash
 				}
 			}
 		}
 		for _, t := range c[n].Txs {
-			dt := DTx{Idx: t.Idx, Hash: t.Hash}
+			dt := DTx{Idx: t.Idx, Hash: t.Hash, Traces: t.Traces}
 			for _, l := range t.Logs {
 				dt.Logs = append(dt.Logs, DLog(l))
 			}
@@ -185,7 +223,7 @@ func Truth(c Chain, base string, x string, addrs []uint64, start, limit uint64) 
 		}
 		bs = append(bs, b)
 	}
-	return View(bs, x, addrs)
+	return ViewT(bs, x, traces, addrs)
 }
 
 func containsU(xs []uint64, x uint64) bool {
